@@ -3,7 +3,7 @@
    written next to them by the harness (Gen/C15_reflect.v); the others are universally quantified statements about the model. *)
 From Coq Require Import List String Bool Arith.
 Import ListNotations.
-From TD Require Import Model.C15_TCWrap Proofs.C15_TCWrapP Gen.C15_tables Gen.C15_reflect.
+From TD Require Import Model.C15_TCWrap Proofs.C15_TCWrapP Model.C15_Pieces Proofs.C15_PiecesP Gen.C15_tables Gen.C15_reflect.
 Open Scope string_scope.
 Open Scope list_scope.
 
@@ -187,7 +187,184 @@ Theorem C15_setitem_keeps_invariant : forall written fields s same val s',
 Proof. exact setitem_wf. Qed.
 Print Assumptions C15_setitem_keeps_invariant.
 
+(* ------------------------------------------------------------------------------------------------ several results: independence *)
+(* Model/C15_Pieces.v: stores are heap objects, an instance is a pair of addresses.  rewrap_all = what _unbind, the tuple branch
+   of _wrap_td_method (split, chunk, max(dim) ...), __torch_function__ (torch.unbind / torch.split) and _getitem do: one
+   _from_tensordict(td_i, dict(self._non_tensordict)) per result.
+   Every result gets its own, fresh, pairwise distinct non-tensor store; the tensordict heap and the stores that existed
+   before are untouched; every result satisfies "every field in exactly one store" (hence attribute access = key access). *)
+Theorem C15_pieces_own_fresh_stores : forall fields src tds h h' ps, rewrap_all fields h src tds = ROk h' ps ->
+  h_td h' = h_td h
+  /\ (exists ext, h_nt h' = h_nt h ++ ext /\ List.length ext = List.length tds)
+  /\ map i_td ps = tds
+  /\ map i_nt ps = seq (List.length (h_nt h)) (List.length tds)
+  /\ (forall p, In p ps -> wf_h fields h' p = true)
+  /\ (tds <> [] -> i_nt src < List.length (h_nt h)).
+Proof. exact rewrap_all_spec. Qed.
+Print Assumptions C15_pieces_own_fresh_stores.
+
+Theorem C15_pieces_attr_is_key : forall fields src tds h h' ps p f, rewrap_all fields h src tds = ROk h' ps -> In p ps -> In f fields ->
+  get_field_h fields h' p f = key_access_h h' p f.
+Proof.
+  intros fields src tds h h' ps p f R Hp Hf. apply rewrap_all_spec in R. destruct R as [_ [_ [_ [_ [W _]]]]]. specialize (W p Hp).
+  unfold wf_h, get_field_h, key_access_h in *. destruct (view h' p) as [s|]; [|discriminate]. cbn. f_equal. apply attr_is_key; assumption.
+Qed.
+Print Assumptions C15_pieces_attr_is_key.
+
+Theorem C15_unbind_keeps_source : forall fields src tds h h' ps, rewrap_all fields h src tds = ROk h' ps -> tds <> [] ->
+  view h' src = view h src.
+Proof. exact rewrap_keeps_source. Qed.
+Print Assumptions C15_unbind_keeps_source.
+
+(* THE FRAME THEOREM, stores: an assignment (any field, any kind of value, any class options) to result i leaves the non-tensor
+   store of every sibling j <> i and of the source exactly as it was.  Unconditional. *)
+Theorem C15_piece_stores_independent : forall fields src tds h h' ps i j pi pj lk o hn k v id h'',
+  rewrap_all fields h src tds = ROk h' ps -> nth_error ps i = Some pi -> nth_error ps j = Some pj -> i <> j ->
+  set_field_h fields lk o hn h' pi k v id = HOk h'' ->
+  nth_error (h_nt h'') (i_nt pj) = nth_error (h_nt h') (i_nt pj) /\ nth_error (h_nt h'') (i_nt src) = nth_error (h_nt h) (i_nt src).
+Proof.
+  intros fields src tds h h' ps i j pi pj lk o hn k v id h'' R Hi Hj N S.
+  destruct (edit_piece_frame fields src tds h h' ps i j pi pj h'' R Hi Hj N (set_field_h_edits _ _ _ _ _ _ _ _ _ _ S)) as [A [B _]]. auto.
+Qed.
+Print Assumptions C15_piece_stores_independent.
+
+(* THE FRAME THEOREM, reads.  Full statement: after the assignment to result i, every sibling and the source read what they
+   read before, and attribute access is still key access on them. *)
+Definition C15_piece_edit_frame_full_statement : Prop := forall fields src tds h h' ps i j pi pj lk o hn k v id h'',
+  rewrap_all fields h src tds = ROk h' ps -> nth_error ps i = Some pi -> nth_error ps j = Some pj -> i <> j ->
+  set_field_h fields lk o hn h' pi k v id = HOk h'' ->
+  (forall f, get_field_h fields h'' pj f = get_field_h fields h' pj f) /\ wf_h fields h'' pj = true
+  /\ (forall f, In f fields -> get_field_h fields h'' pj f = key_access_h h'' pj f).
+(* proved when result j does not wrap the same tensordict OBJECT as result i (the pieces of a dense tensordict never do) ... *)
+Theorem C15_piece_edit_frame_partial : forall fields src tds h h' ps i j pi pj lk o hn k v id h'',
+  rewrap_all fields h src tds = ROk h' ps -> nth_error ps i = Some pi -> nth_error ps j = Some pj -> i <> j ->
+  set_field_h fields lk o hn h' pi k v id = HOk h'' ->
+  (i_td pj <> i_td pi ->
+     (forall f, get_field_h fields h'' pj f = get_field_h fields h' pj f) /\ wf_h fields h'' pj = true
+     /\ (forall f, In f fields -> get_field_h fields h'' pj f = key_access_h h'' pj f))
+  /\ (i_td src <> i_td pi -> forall f, get_field_h fields h'' src f = get_field_h fields h src f).
+Proof.
+  intros fields src tds h h' ps i j pi pj lk o hn k v id h'' R Hi Hj N S.
+  destruct (edit_piece_frame fields src tds h h' ps i j pi pj h'' R Hi Hj N (set_field_h_edits _ _ _ _ _ _ _ _ _ _ S)) as [_ [_ [C [D E]]]].
+  split; [|exact E]. intros Ntd. split; [apply C; exact Ntd|]. split; [apply D; exact Ntd|].
+  intros f Hf. specialize (D Ntd). unfold wf_h, get_field_h, key_access_h in *. destruct (view h'' pj) as [s|]; [|discriminate].
+  cbn. f_equal. apply attr_is_key; assumption.
+Qed.
+Print Assumptions C15_piece_edit_frame_partial.
+(* ... the same frame for del_ *)
+Theorem C15_piece_del_frame_partial : forall fields src tds h h' ps i j pi pj k h'',
+  rewrap_all fields h src tds = ROk h' ps -> nth_error ps i = Some pi -> nth_error ps j = Some pj -> i <> j ->
+  del_field_h h' pi k = HOk h'' ->
+  nth_error (h_nt h'') (i_nt pj) = nth_error (h_nt h') (i_nt pj) /\ nth_error (h_nt h'') (i_nt src) = nth_error (h_nt h) (i_nt src)
+  /\ (i_td pj <> i_td pi -> (forall f, get_field_h fields h'' pj f = get_field_h fields h' pj f) /\ wf_h fields h'' pj = true).
+Proof.
+  intros fields src tds h h' ps i j pi pj k h'' R Hi Hj N S.
+  destruct (edit_piece_frame fields src tds h h' ps i j pi pj h'' R Hi Hj N (del_field_h_edits _ _ _ _ S)) as [A [B [C [D _]]]]. auto.
+Qed.
+Print Assumptions C15_piece_del_frame_partial.
+(* ... and FALSE when two results wrap one tensordict object (the same member of a lazy stack reached twice: tc[0] and
+   tc.unbind(0)[0]): assigning a tensor to the Optional field through one handle puts it in the shared tensordict, while the
+   other handle keeps a stale None in its own store and goes on reading None: finding D183 *)
+Theorem C15_piece_edit_frame_refuted : exists fields src tds h h' ps pi pj h'',
+  rewrap_all fields h src tds = ROk h' ps /\ nth_error ps 0 = Some pi /\ nth_error ps 1 = Some pj
+  /\ set_field_h fields false {| o_autocast := false; o_nocast := false |} HAny h' pi "o" VkTensor 7 = HOk h''
+  /\ wf_h fields h'' pj = false /\ get_field_h fields h'' pj "o" <> key_access_h h'' pj "o".
+Proof.
+  exists ["x"; "o"], {| i_td := 0; i_nt := 0 |}, [1; 1],
+         {| h_td := [[("x", VTensor 1)]; [("x", VTensor 2)]]; h_nt := [[("o", NNone)]] |}.
+  eexists. eexists. eexists. eexists. eexists.
+  split; [vm_compute; reflexivity|]. split; [reflexivity|]. split; [reflexivity|]. split; [vm_compute; reflexivity|].
+  split; [vm_compute; reflexivity|]. vm_compute. discriminate.
+Qed.
+Print Assumptions C15_piece_edit_frame_refuted.
+
+(* the edited result itself keeps its invariant and reads back what was assigned *)
+Theorem C15_set_piece_self : forall fields src tds h h' ps i pi o hn k v id h'',
+  rewrap_all fields h src tds = ROk h' ps -> nth_error ps i = Some pi ->
+  set_field_h fields false o hn h' pi k v id = HOk h'' ->
+  wf_h fields h'' pi = true /\ get_field_h fields h'' pi k = Some (readback o hn v id).
+Proof. exact set_piece_self. Qed.
+Print Assumptions C15_set_piece_self.
+
+(* ------------------------------------------------------------------------------------------------ n-ary functions: row provenance *)
+(* torch.cat under a non-tensor key, ANY number of operands (NonTensorData or NonTensorStack along the dimension), values with
+   identity, equality class and possibly a raising ==: the rows of the result carry, position by position, the python value of
+   the rows of the operands laid side by side (_same_non_tensor + the non-tensor branch of _cat) *)
+Theorem C15_cat_rows_provenance : forall items, forallb is_nt items = true -> ident_ok (flat_map item_objs items) ->
+  Forall2 val_eq (res_rows (cat_nt items)) (flat_map item_rows items).
+Proof. exact cat_rows_provenance. Qed.
+Print Assumptions C15_cat_rows_provenance.
+(* by row number: the result's value at row r equals the value of the operand that owns row r *)
+Theorem C15_cat_row_owner : forall items r x, forallb is_nt items = true -> ident_ok (flat_map item_objs items) ->
+  owner_row items r = Some x -> exists y, nth_error (res_rows (cat_nt items)) r = Some y /\ ocls y = ocls x.
+Proof. exact cat_row_owner. Qed.
+Print Assumptions C15_cat_row_owner.
+(* torch.stack of NonTensorData operands (NonTensorData._stack_non_tensor, ids + _check_equal): entry k carries operand k's value *)
+Theorem C15_stack_rows_provenance : forall items, forallb is_ntd items = true -> items <> [] -> ident_ok (flat_map item_objs items) ->
+  Forall2 val_eq (res_rows (stack_nt items)) (flat_map item_objs items).
+Proof. exact stack_rows_provenance. Qed.
+Print Assumptions C15_stack_rows_provenance.
+
+(* payloads held in _non_tensordict (Cls.from_tensordict(td, non_tensordict)): the result of an n-ary function is given a copy
+   of the FIRST operand's store.  Full statement: the value the result holds for a field is the value of whichever operand a
+   row comes from. *)
+Definition C15_nary_store_provenance_full_statement : Prop := forall stores s k sk f,
+  nary_store stores = Some s -> nth_error stores k = Some sk -> lookup f s = lookup f sk.
+Theorem C15_nary_store_provenance_partial : forall stores s k sk f, nary_store stores = Some s -> nth_error stores k = Some sk ->
+  (forall a b, In a stores -> In b stores -> lookup f a = lookup f b) -> lookup f s = lookup f sk.
+Proof. exact nary_store_agreeing. Qed.
+Print Assumptions C15_nary_store_provenance_partial.
+Theorem C15_nary_store_provenance_refuted : exists stores s k sk f,
+  nary_store stores = Some s /\ nth_error stores k = Some sk /\ lookup f s <> lookup f sk.
+Proof. exists [[("meta", NVal 1)]; [("meta", NVal 2)]], [("meta", NVal 1)], 1, [("meta", NVal 2)], "meta". cbn. repeat split; discriminate. Qed.
+Print Assumptions C15_nary_store_provenance_refuted.
+
 (* ------------------------------------------------------------------------------------------------ non-vacuity *)
+(* three results of one unbind, the Optional field of the first is filled: the others and the source still read None *)
+Example C15_ex_frame :
+  let fields := ["x"; "o"; "s"] in
+  let h := {| h_td := [[("x", VTensor 1); ("s", VNonTensor 5)]; [("x", VTensor 2); ("s", VNonTensor 5)];
+                       [("x", VTensor 3); ("s", VNonTensor 5)]; [("x", VTensor 4); ("s", VNonTensor 5)]]; h_nt := [[("o", NNone)]] |} in
+  let src := {| i_td := 0; i_nt := 0 |} in
+  exists h' p0 p1 p2 h'', rewrap_all fields h src [1; 2; 3] = ROk h' [p0; p1; p2]
+    /\ set_field_h fields false {| o_autocast := false; o_nocast := false |} HAny h' p0 "o" VkTensor 9 = HOk h''
+    /\ get_field_h fields h'' p0 "o" = Some (GTensor 9) /\ get_field_h fields h'' p1 "o" = Some GNoneV
+    /\ get_field_h fields h'' p2 "o" = Some GNoneV /\ get_field_h fields h'' src "o" = Some GNoneV
+    /\ i_td p1 <> i_td p0.
+Proof. cbv zeta. do 5 eexists. split; [vm_compute; reflexivity|]. split; [vm_compute; reflexivity|]. vm_compute. repeat split; discriminate. Qed.
+(* the frame theorem tells the library from the variant that hands ONE copy of the store to every result (not the library):
+   there the sibling loses the field *)
+Example C15_ex_frame_discriminates :
+  let fields := ["x"; "o"] in
+  let h := {| h_td := [[("x", VTensor 1)]; [("x", VTensor 2)]; [("x", VTensor 3)]]; h_nt := [[("o", NNone)]] |} in
+  let src := {| i_td := 0; i_nt := 0 |} in
+  exists h' p0 p1 h'', rewrap_all_shared fields h src [1; 2] = ROk h' [p0; p1]
+    /\ set_field_h fields false {| o_autocast := false; o_nocast := false |} HAny h' p0 "o" VkTensor 9 = HOk h''
+    /\ i_td p1 <> i_td p0 /\ get_field_h fields h' p1 "o" = Some GNoneV /\ get_field_h fields h'' p1 "o" = Some (GRaise EKey).
+Proof. cbv zeta. do 4 eexists. split; [vm_compute; reflexivity|]. split; [vm_compute; reflexivity|]. vm_compute. repeat split; discriminate. Qed.
+(* cat of three operands, the first two equal but not identical, the third different: a stack of the operands' rows *)
+Example C15_ex_cat :
+  let a := {| oid := 1; ocls := 0; oraises := false |} in let a' := {| oid := 2; ocls := 0; oraises := false |} in
+  let b := {| oid := 3; ocls := 1; oraises := false |} in
+  same_non_tensor [INtd 2 a; INtd 2 a'; INtd 2 b] = false
+  /\ map ocls (res_rows (cat_nt [INtd 2 a; INtd 2 a'; INtd 2 b])) = [0; 0; 0; 0; 1; 1]
+  /\ map ocls (res_rows (cat_nt [INtd 2 a; INtd 1 a'; INtd 3 a])) = [0; 0; 0; 0; 0; 0]
+  /\ forallb is_nt [INtd 2 a; INtd 2 a'; INtd 2 b] = true.
+Proof. vm_compute. repeat split; reflexivity. Qed.
+(* ... and the row-provenance theorem tells the library from the loop that returns the outcome of the first comparison *)
+Example C15_ex_cat_discriminates :
+  let a := {| oid := 1; ocls := 0; oraises := false |} in let a' := {| oid := 2; ocls := 0; oraises := false |} in
+  let b := {| oid := 3; ocls := 1; oraises := false |} in
+  let broken := fun items => match items with INtd _ v :: r => same_loop_first_only v r | _ => false end in
+  map ocls (res_rows (cat_key broken [INtd 2 a; INtd 2 a'; INtd 2 b])) = [0; 0; 0; 0; 0; 0].
+Proof. vm_compute. reflexivity. Qed.
+Example C15_ex_stack :
+  let a := {| oid := 1; ocls := 0; oraises := false |} in let a' := {| oid := 2; ocls := 0; oraises := false |} in
+  let b := {| oid := 3; ocls := 1; oraises := false |} in let z := {| oid := 4; ocls := 2; oraises := true |} in
+  map ocls (res_rows (stack_nt [INtd 1 a; INtd 1 a'; INtd 1 b])) = [0; 0; 1]
+  /\ stack_nt [INtd 1 a; INtd 1 a'; INtd 1 a] = NData 3 a
+  /\ stack_nt [INtd 1 z; INtd 1 z] = NData 2 z /\ stack_nt [INtd 1 z; INtd 1 a; INtd 1 z] = NStack [z; a; z].
+Proof. vm_compute. repeat split; reflexivity. Qed.
 Example C15_ex_setitem : setitem (fun _ j => j) false {| s_td := [("x", VTensor 1)]; s_nt := [("o", NNone); ("s", NVal 2)] |}
     (IVTc true {| s_td := [("x", VTensor 5); ("o", VTensor 6)]; s_nt := [("s", NVal 2)] |})
   = SOk {| s_td := [("x", VTensor 5); ("o", VTensor 6)]; s_nt := [("s", NVal 2)] |}.
